@@ -331,8 +331,9 @@ func (s *Storer) newAofROpenObserver(reader *AofRotateReader, ra *dataSet) func(
 		}
 		// a reader that moves on to its next segment is registered with no segment for a moment: a reset of
 		// the dataset in that moment cannot see it, and it would poll the removed file for ever
+		// (not from this goroutine: the notification arrives with the reader's mutex held, which its close takes)
 		if ra.IsClosed() {
-			reader.Close()
+			usync.SafeGo(func() { reader.Close() }, nil)
 		}
 	}
 }
